@@ -52,7 +52,7 @@ theorem delivery_is_expected :
     error; stage order in Create / Update / processDeleteConstraints.  (That GetParentContext lets the
     parent bucket record into the child bucket's holder is the table field `persistSharesHolder`.) -/
 theorem holder_plumbing_is_expected :
-    Generated.holderFlags.all (·.2) = true ∧ Generated.holderFlags.length = 10 := by
+    Generated.holderFlags.all (·.2) = true ∧ Generated.holderFlags.length = 14 := by
   decide
 
 /-- environments whose return table is the one regenerated from the code (registrations and the
@@ -95,16 +95,21 @@ theorem op_failure_kind_surfaces (env : Env) (h : FromCode env) (fault : Fault) 
 
 -- non-vacuity: a vetoing constraint on the child store and a delete through the parent store
 example : OpFails { regsP := [], regsC := [.constraint false [(.deleted, "c1")]], txListeners := 0, t := Generated.crudReturns }
-    [("c1", { f := ⟨"n", [], none⟩, child := some "k" })] (.delete .P "c1") :=
-  .deleteVetoChildFlow .P "c1" (by decide) (by decide)
+    [("c1", { f := ⟨"n", [], none, []⟩, child := some "k" })] (.delete .P "c1") :=
+  .deleteVetoChildFlow .P .C "c1" (by decide) (by decide) (by decide)
+
+-- non-vacuity: an entity with data in both child stores; a constraint of the SECOND child store vetoes the delete
+example : OpFails { regsP := [], regsC := [], regsD := [.constraint true [(.deleted, "c1")]], txListeners := 0, t := Generated.crudReturns }
+    [("c1", { f := ⟨"n", [], none, []⟩, child := some "k", child2 := some "g" })] (.delete .C "c1") :=
+  .deleteVetoChildFlow .C .D "c1" (by decide) (by decide) (by decide)
 
 -- non-vacuity: a custom constraint registered on the CHILD store vetoes the delete of an entity with
 -- child data (delete through the parent store); one on the parent store vetoes an update before the write
 example : OpFails { regsP := [], regsC := [], txListeners := 0, t := Generated.crudReturns, ixC := [[(.beforeDelete, "c1")]] }
-    [("c1", { f := ⟨"n", [], none⟩, child := some "k" })] (.delete .P "c1") :=
-  .deleteIxVetoChild .P "c1" (by decide) (by decide)
+    [("c1", { f := ⟨"n", [], none, []⟩, child := some "k" })] (.delete .P "c1") :=
+  .deleteIxVetoChild .P .C "c1" (by decide) (by decide) (by decide)
 example : OpFails { regsP := [], regsC := [], txListeners := 0, t := Generated.crudReturns, ixP := [[], [(.beforeUpdate, "c1")]] }
-    [("c1", { f := ⟨"n", [], none⟩, child := some "k" })] (.update .C "c1" ⟨"m", [], none⟩ "k") :=
+    [("c1", { f := ⟨"n", [], none, []⟩, child := some "k" })] (.update .C "c1" ⟨"m", [], none, []⟩ "k") :=
   .updateIxVetoParent .C "c1" _ _ .beforeUpdate (by decide) (by decide)
 
 /-- **C07, no false success.**  An operation that reports success was accepted by the spec (none of
@@ -298,7 +303,7 @@ theorem history_refines_spec (env : Env) (h : FromCode env) (txs : List TxSpec)
   runCase_agree env h.expected txs hw db ctx
 
 -- non-vacuity of the transaction hypotheses
-def sampleBody : List Step := [.addCommit 1, .op (.create .C "c1" ⟨"n", ["r"], none⟩ "k") (.load .P 1) false, .fail 3]
+def sampleBody : List Step := [.addCommit 1, .op (.create .C "c1" ⟨"n", ["r"], none, []⟩ "k") (.load .P 1) false, .fail 3]
 example : TxSpec.wellBehaved { mode := .batch, reuseCtx := true, body := sampleBody } := by
   intro s hs
   simp [sampleBody] at hs
@@ -312,9 +317,9 @@ def tableWithout9b55bb4 : CrudReturns := { expectedReturns with deleteFireEvents
     concrete input (the veto is raised, the delete reports success). -/
 example :
     (runOp { regsP := [], regsC := [.constraint true [(.deleted, "c1")]], txListeners := 0, t := tableWithout9b55bb4 }
-      .none (.delete .C "c1") (beginTx [("c1", { f := ⟨"n2", [], none⟩, child := some "k1" })] Ctx.empty)).2 = .ok ∧
+      .none (.delete .C "c1") (beginTx [("c1", { f := ⟨"n2", [], none, []⟩, child := some "k1" })] Ctx.empty)).2 = .ok ∧
     (runOp { regsP := [], regsC := [.constraint true [(.deleted, "c1")]], txListeners := 0, t := tableWithout9b55bb4 }
-      .none (.delete .C "c1") (beginTx [("c1", { f := ⟨"n2", [], none⟩, child := some "k1" })] Ctx.empty)).1.raised
+      .none (.delete .C "c1") (beginTx [("c1", { f := ⟨"n2", [], none, []⟩, child := some "k1" })] Ctx.empty)).1.raised
         = [.veto .C 0] := by
   decide
 
@@ -322,7 +327,7 @@ example :
     `changeFlow, err := …processDeleteConstraints(…); if changeFlow != nil {…} else if err != nil {return err}`). -/
 def tableChildConstraintErrorUntested : CrudReturns := { expectedReturns with deleteChildConstraints := .ignore }
 
-def c1Db : Db := [("c1", { f := ⟨"n2", [], none⟩, child := some "k1" })]
+def c1Db : Db := [("c1", { f := ⟨"n2", [], none, []⟩, child := some "k1" })]
 
 /-- Under that table a delete veto raised by a custom constraint registered ON THE CHILD STORE is
     dropped (one registered on the parent store is raised again by the parent store's own pass): the
@@ -347,14 +352,14 @@ def tableHolderNotShared : CrudReturns := { expectedReturns with persistSharesHo
     the veto is raised, the update reports success and is applied.  A plain parent entity is not affected. -/
 example :
     (runOp { regsP := [], regsC := [], txListeners := 0, t := tableHolderNotShared, ixP := [[(.beforeUpdate, "c1")]] }
-      .none (.update .P "c1" ⟨"n9", [], none⟩ "") (beginTx c1Db Ctx.empty)).2 = .ok ∧
+      .none (.update .P "c1" ⟨"n9", [], none, []⟩ "") (beginTx c1Db Ctx.empty)).2 = .ok ∧
     (runOp { regsP := [], regsC := [], txListeners := 0, t := tableHolderNotShared, ixP := [[(.beforeUpdate, "c1")]] }
-      .none (.update .P "c1" ⟨"n9", [], none⟩ "") (beginTx c1Db Ctx.empty)).1.raised = [.ixVeto .P 0] ∧
+      .none (.update .P "c1" ⟨"n9", [], none, []⟩ "") (beginTx c1Db Ctx.empty)).1.raised = [.ixVeto .P 0] ∧
     (runOp { regsP := [], regsC := [], txListeners := 0, t := tableHolderNotShared, ixP := [[(.beforeUpdate, "c1")]] }
-      .none (.update .P "c1" ⟨"n9", [], none⟩ "") (beginTx c1Db Ctx.empty)).1.db =
-        [("c1", { f := ⟨"n9", [], none⟩, child := some "k1" })] ∧
+      .none (.update .P "c1" ⟨"n9", [], none, []⟩ "") (beginTx c1Db Ctx.empty)).1.db =
+        [("c1", { f := ⟨"n9", [], none, []⟩, child := some "k1" })] ∧
     (runOp { regsP := [], regsC := [], txListeners := 0, t := tableHolderNotShared, ixP := [[(.beforeUpdate, "p1")]] }
-      .none (.update .P "p1" ⟨"n9", [], none⟩ "") (beginTx [("p1", { f := ⟨"n1", [], none⟩, child := none })] Ctx.empty)).2
+      .none (.update .P "p1" ⟨"n9", [], none, []⟩ "") (beginTx [("p1", { f := ⟨"n1", [], none, []⟩, child := none })] Ctx.empty)).2
         = .err (.ixVeto .P 0) := by
   decide +kernel
 
